@@ -536,6 +536,94 @@ theorem delete_inv {sch : Schema} {s : Sess} (hI : Inv sch s) (o : ObjId) : Inv 
         · exact hks .markedToDelete rfl
         · exact hkc .markedToDelete rfl
 
+/-! ## a cascading delete that is refused after its nested deletes ran -/
+
+/-- the same session up to the representation of the index maps (and the queue) -/
+structure StEq (s s' : Sess) : Prop where
+  n : s'.n = s.n
+  obj : s'.obj = s.obj
+  pk : ∀ k, s'.pkIx.get k = s.pkIx.get k
+  ix : IxEq s'.ixs s.ixs
+
+theorem StEq.refl (s : Sess) : StEq s s := ⟨rfl, rfl, fun _ => rfl, IxEq.refl _⟩
+theorem StEq.trans {a b c : Sess} (h1 : StEq a b) (h2 : StEq b c) : StEq a c :=
+  ⟨h2.n.trans h1.n, h2.obj.trans h1.obj, fun k => (h2.pk k).trans (h1.pk k), IxEq.trans h2.ix h1.ix⟩
+theorem StEq.sameKeys {sch : Schema} {s s' : Sess} (h : StEq s s') : SameKeys sch s s' :=
+  ⟨h.n, h.pk, h.ix, fun o _ => by rw [h.obj]; exact ObjSame.refl _ _⟩
+
+theorem undoDelete_congr {sch : Schema} {s s' : Sess} (h : StEq s s') (r : DelRec) :
+    StEq (undoDelete sch s r) (undoDelete sch s' r) := by
+  unfold undoDelete
+  split
+  · exact h
+  · refine ⟨h.n, by simp only [h.obj], ?_, ?_⟩
+    · intro k; simp only [Index.get_setOpt, h.pk]
+    · intro i k; simp only [Index.get_setOpt, h.ix i k]
+
+theorem setObj_setObj_self (f : ObjId → Obj) (o : ObjId) (x : Obj) : setObj (setObj f o x) o (f o) = f := by
+  funext a
+  simp only [setObj]
+  by_cases e : a = o
+  · subst e; simp
+  · simp [e]
+
+theorem delete_n (sch : Schema) (s : Sess) (o : ObjId) : (delete sch s o).1.n = s.n := by
+  unfold delete
+  simp only
+  split
+  · rfl
+  · split
+    · rfl
+    · split <;> rfl
+
+/-- one nested `_delete_` followed by its `undo_func` gives back the session: the object record, its primary-key entry
+    (popped for a `created` object) and every key entry -/
+theorem undoDelete_delete {sch : Schema} {s : Sess} (hI : Inv sch s) (c : ObjId) :
+    StEq s (undoDelete sch (delete sch s c).1 (delRec s c)) := by
+  unfold undoDelete delRec delete
+  simp only
+  by_cases hc : c ≥ s.n
+  · simp only [hc, decide_true, Bool.true_or, if_true]; exact StEq.refl _
+  · have hc' : c < s.n := Nat.lt_of_not_le hc
+    simp only [hc, decide_false, Bool.false_or, if_false]
+    cases hdel : (s.obj c).status.isDel with
+    | true => simp only [if_true]; exact StEq.refl _
+    | false =>
+      simp only [Bool.false_eq_true, if_false]
+      have hkeys : ∀ i k, (((s.ixs i).eraseOpt (kv sch (s.obj c).vals i)).setOpt (kv sch (s.obj c).vals i) c).get k = (s.ixs i).get k := by
+        intro i k
+        rw [Index.get_setOpt, Index.get_eraseOpt]
+        by_cases e : kv sch (s.obj c).vals i = some k
+        · simp [e, hI.key_complete i c k hc' hdel e]
+        · simp [e]
+      by_cases hcr : (s.obj c).status = .created
+      · simp only [hcr, if_true]
+        refine ⟨rfl, setObj_setObj_self _ _ _, ?_, hkeys⟩
+        intro k
+        rw [Index.get_setOpt, Index.get_eraseOpt]
+        by_cases e : (s.obj c).pk = some k
+        · simp [e, hI.pk_complete c k hc' e (holdsPk_of_not_isDel hdel)]
+        · simp [e]
+      · simp only [hcr, if_false]
+        exact ⟨rfl, setObj_setObj_self _ _ _, fun _ => rfl, hkeys⟩
+
+/-- the refused cascade as a whole restores the session, whatever objects it had reached -/
+theorem cascadeGo_eq {sch : Schema} {s : Sess} (hI : Inv sch s) (cs : List ObjId) : StEq s (cascadeGo sch s cs) := by
+  induction cs generalizing s with
+  | nil => exact StEq.refl _
+  | cons c cs ih =>
+    unfold cascadeGo
+    have h1 := ih (delete_inv hI c)
+    exact StEq.trans (undoDelete_delete hI c) (undoDelete_congr h1 (delRec s c))
+
+theorem undoDelete_n (sch : Schema) (s : Sess) (r : DelRec) : (undoDelete sch s r).n = s.n := by
+  unfold undoDelete; split <;> rfl
+
+theorem cascadeGo_n (sch : Schema) (s : Sess) (cs : List ObjId) : (cascadeGo sch s cs).n = s.n := by
+  induction cs generalizing s with
+  | nil => rfl
+  | cons c cs ih => unfold cascadeGo; rw [undoDelete_n, ih, delete_n]
+
 theorem saveCreated_inv {sch : Schema} {s : Sess} (hI : Inv sch s) (o : ObjId) (newId : Option Int) :
     Inv sch (saveCreated s o newId).1 := by
   unfold saveCreated
@@ -703,6 +791,7 @@ theorem step_inv {sch : Schema} {s : Sess} (hI : Inv sch s) (op : Op) (hg : load
   | find c pk kw => exact inv_congr (find_same s c pk kw) hI
   | proxy o => simp only [proxy_state]; exact hI
   | markRead os attrs => exact inv_congr (markRead_same s os attrs) hI
+  | cascadeFail cs => exact inv_congr (cascadeGo_eq hI cs).sameKeys hI
 
 theorem dbSet_n (sch : Schema) (s : Sess) (o : ObjId) (rowv : Nat → Slot) (u : Bool) : (dbSet sch s o rowv u).1.n = s.n := by
   unfold dbSet
@@ -778,6 +867,7 @@ theorem step_n_le (sch : Schema) (s : Sess) (op : Op) : s.n ≤ (step sch s op).
   | find c pk kw => exact Nat.le_of_eq (find_same (sch := sch) s c pk kw).n.symm
   | proxy o => simp only [proxy_state]; exact Nat.le_refl _
   | markRead os attrs => exact Nat.le_refl _
+  | cascadeFail cs => exact Nat.le_of_eq (cascadeGo_n sch s cs).symm
 
 /-! ## histories -/
 
@@ -960,5 +1050,6 @@ theorem yield_lt {sch : Schema} {s : Sess} (hI : Inv sch s) (op : Op) (x : ObjId
           exact (hI.pk_sound k _ hg).1
         · cases h
   | markRead os attrs => simp [markRead] at h
+  | cascadeFail cs => simp [cascadeFail] at h
 
 end PonyVerif.Model.KeyIndex
